@@ -2,6 +2,7 @@ package reuse
 
 import (
 	"os"
+	"runtime"
 	"strconv"
 	"sync"
 	"testing"
@@ -70,13 +71,16 @@ func TestRaceColdCaches(t *testing.T) {
 // TestRaceSenBytes: the pooled sen.Bytes alone; the caller only READS what it was handed.
 func TestRaceSenBytes(t *testing.T) {
 	var wg sync.WaitGroup
-	for g := 0; g < 8; g++ {
+	for g := 0; g < 64; g++ {
 		wg.Add(1)
 		go func(g int) {
 			defer wg.Done()
 			sum := 0
-			for i := 0; i < 1500; i++ {
+			for i := 0; i < 600; i++ {
 				b := sen.Bytes([]any{int64(g), int64(i), "abcdefgh"})
+				if i%4 == 0 {
+					runtime.Gosched() // the caller holds b while other goroutines run on this P
+				}
 				for _, x := range b {
 					sum += int(x)
 				}
